@@ -34,6 +34,7 @@ func main() {
 	overlay := flag.String("overlay", "", "overlay json passed to go list")
 	pkgs := flag.String("pkgs", "", "comma separated package patterns")
 	yieldPkgs := flag.String("yield", "", "comma separated import-path suffixes whose functions get yield points, lock and go rewrites")
+	stmtPkgs := flag.String("yieldstmts", "", "comma separated import-path suffixes (also yield packages) that additionally get a yield point before every statement that calls something")
 	flag.Parse()
 	bf := []string{"-tags=verif"}
 	if *modfile != "" {
@@ -81,6 +82,14 @@ func main() {
 			yieldSet[y] = true
 		}
 	}
+	stmtSet := map[string]bool{}
+	for _, y := range strings.Split(*stmtPkgs, ",") {
+		if y != "" {
+			stmtSet[y] = true
+			yieldSet[y] = true
+		}
+	}
+	nstmt := 0
 	for _, p := range loaded {
 		if len(p.Errors) > 0 {
 			for _, e := range p.Errors {
@@ -162,6 +171,67 @@ func main() {
 				}
 				return true
 			}, nil)
+			if stmtSet[strings.TrimPrefix(p.PkgPath, "com.tuntun.rangers/node/src/")] {
+				// statement-level yield points: before every call statement / assignment from a call, so that
+				// check-then-act sequences and multi-step updates inside one function can be interleaved
+				callsSomething := func(st ast.Stmt) bool {
+					var e []ast.Expr
+					switch x := st.(type) {
+					case *ast.ExprStmt:
+						e = []ast.Expr{x.X}
+					case *ast.AssignStmt:
+						e = x.Rhs
+					default:
+						return false
+					}
+					found := false
+					for _, x := range e {
+						ast.Inspect(x, func(n ast.Node) bool {
+							if _, ok := n.(*ast.FuncLit); ok {
+								return false
+							}
+							if c, ok := n.(*ast.CallExpr); ok {
+								if tv, ok := p.TypesInfo.Types[c.Fun]; ok && tv.IsType() {
+									return true // conversion
+								}
+								if id, ok := c.Fun.(*ast.Ident); ok {
+									if _, isBuiltin := p.TypesInfo.Uses[id].(*types.Builtin); isBuiltin {
+										return true
+									}
+								}
+								found = true
+							}
+							return true
+						})
+					}
+					return found
+				}
+				withYields := func(list []ast.Stmt) []ast.Stmt {
+					var out []ast.Stmt
+					for _, st := range list {
+						if callsSomething(st) {
+							site := fmt.Sprintf("%s:%d", rel, p.Fset.Position(st.Pos()).Line)
+							out = append(out, &ast.ExprStmt{X: &ast.CallExpr{Fun: &ast.SelectorExpr{X: ast.NewIdent("zzsimsched"), Sel: ast.NewIdent("Yield")},
+								Args: []ast.Expr{&ast.BasicLit{Kind: token.STRING, Value: fmt.Sprintf("%q", site)}}}})
+							nstmt++
+							changed, usedSched = true, true
+						}
+						out = append(out, st)
+					}
+					return out
+				}
+				ast.Inspect(f, func(n ast.Node) bool {
+					switch x := n.(type) {
+					case *ast.BlockStmt:
+						x.List = withYields(x.List)
+					case *ast.CaseClause:
+						x.Body = withYields(x.Body)
+					case *ast.CommClause:
+						x.Body = withYields(x.Body)
+					}
+					return true
+				})
+			}
 			if doYield {
 				astutil.Apply(f, func(c *astutil.Cursor) bool {
 					switch n := c.Node().(type) {
@@ -263,7 +333,7 @@ func main() {
 			nfiles++
 		}
 	}
-	fmt.Printf("instrumented: %d map ranges, %d sync.Map ranges, %d function-entry yields, %d lock sites, %d go statements in %d files (%d skipped)\n", nmap, nsync, nyield, nlock, ngo, nfiles, nskip)
+	fmt.Printf("instrumented: %d map ranges, %d sync.Map ranges, %d function-entry yields, %d statement yields, %d lock sites, %d go statements in %d files (%d skipped)\n", nmap, nsync, nyield, nstmt, nlock, ngo, nfiles, nskip)
 }
 
 func recvName(e ast.Expr) string {
